@@ -45,6 +45,13 @@ theorem parse_render_partial (now : Int) (t : JobTable) (hs : Structural t) (hn 
     (by have := live_length_le_render t; omega)
   simpa [parse] using this
 
+/-- the explicit fuel of the model's parsing loops is an artefact only: it never runs out, for any
+    content (so `parse` is the Go parser's result on every input, not only on rendered files) -/
+theorem parse_never_out_of_fuel (now : Int) (content : Bytes) : parse now content ≠ .error .fuel :=
+  parse_fuel_ok now content
+
+example : parse 0 [45, 32] = .error .format := by decide
+
 /-- the same through `load`, as a restarted plugin sees it -/
 theorem load_render_partial (now : Int) (t : JobTable) (hs : Structural t) (hn : NamesOk t) :
     load now (some (render t)) = .ok (live t) := parse_render_partial now t hs hn
